@@ -225,6 +225,10 @@ def _work(names: List[str]):
     de_eager = UDPMessageDeserializer(settings=s_e)
     de_lazy = UDPMessageDeserializer(settings=Settings())
     for name in names:
+        if name.startswith("@sweep:"):
+            for c in gen.count_sweep(name[7:]):
+                check_case(part, gen, c, ser, de_eager, de_lazy)
+            continue
         if name.startswith("@hdr:"):
             for c in gen.header_variants(name[5:]):
                 if _QUICK and (len(c["acks"]) > 3 or len(c["extra"]) > 3):
@@ -246,17 +250,19 @@ def _work(names: List[str]):
 def run(run: Run):
     global _G, _QUICK
     _QUICK = run.tier == "quick"
-    _G = msggen.Gen(run.seed)
+    _G = msggen.Gen(run.seed, maximal=not _QUICK)
     names = list(_G.templates)
     if len(names) < 480:
         raise RuntimeError("reference template parse found too few templates")
     units = [[n] for n in names] + [["@hdr:" + n] for n in msggen.HEADER_BASIS]
+    if not _QUICK:  # every repeat count 0..255 on the basis templates that have Variable blocks
+        units += [["@sweep:" + n] for n in msggen.HEADER_BASIS if any(b.kind == "Variable" for b in _G.templates[n].blocks)]
     for d in pmap(_work, units, run.jobs):
         run.merge(d)
     run.rule = ("for each of the %d templates: value rows 0..L-1 (row k gives every variable the k-th element of its wire-type alphabet, "
                 "so every alphabet element of every variable occurs) x each-choice header variants; Variable-block counts {0,2,255} + mixed "
                 "counts; every trailing-block omission; full header cross product (16 flag subsets x 3 ids x 4 ack lists x 4 extras) on %d basis "
-                "templates%s; default-fill: all variables unset + each single variable unset per template. distinct_nontrivial = distinct "
+                "templates%s; thorough adds every repeat count 0..255 on the basis templates and 65535-byte Variable-2 fields; default-fill: all variables unset + each single variable unset per template. distinct_nontrivial = distinct "
                 "(template, ack/zerocode flags, block counts, row/variant tag) combinations" %
                 (len(names), len(msggen.HEADER_BASIS), " (255-ack / 255-extra rows dropped in quick tier)" if _QUICK else ""))
     run.assumptions += [
